@@ -163,12 +163,134 @@ class _Normalizer:
             self._each_function(m, self._prune_constant_tests)
             self._each_function(m, self._data_driven)
             self._each_function(m, self._display_algebra)
+            self._each_function(m, self._copy_propagate_locals_once)
+            self._each_function(m, self._none_guarded_copy)
             self._each_function(m, self._desugar_function)
             self._each_function(m, self._order_comparisons)
             self._each_function(m, self._positional_calls)
             self._each_function(m, self._truth_contexts)
 
 
+
+    def _copy_propagate_locals_once(self, fnode, cls, local):
+        """``v = o.attr`` directly followed by an ``if`` / assignment that reads ``v`` and nothing else ever reads or rebinds it
+        later: the attribute read in place (several sections unrolled from one loop each bind ``v`` anew)"""
+        for blk in _blocks(fnode):
+            i = 0
+            while i + 1 < len(blk):
+                st, nxt = blk[i], blk[i + 1]
+                i += 1
+                if not (isinstance(st, ast.Assign) and len(st.targets) == 1 and isinstance(st.targets[0], ast.Name)
+                        and isinstance(st.value, ast.Attribute) and _is_simple(st.value)):
+                    continue
+                v = st.targets[0].id
+                if v in {a.arg for a in fnode.args.args}:
+                    continue
+                if not isinstance(nxt, (ast.If, ast.Assign, ast.Expr)):
+                    continue
+                # later statements of the block: the next read of v (if any) must come after another store to v
+                dead = True
+                for later in blk[i + 1:]:
+                    stores_first = None
+                    for y in ast.walk(later):
+                        if isinstance(y, ast.Name) and y.id == v:
+                            if isinstance(y.ctx, ast.Store) and stores_first is None:
+                                stores_first = True
+                            elif isinstance(y.ctx, ast.Load) and stores_first is None:
+                                stores_first = False
+                    if stores_first is True and isinstance(later, ast.Assign) and len(later.targets) == 1 \
+                            and isinstance(later.targets[0], ast.Name) and later.targets[0].id == v \
+                            and not any(isinstance(y, ast.Name) and y.id == v for y in ast.walk(later.value)):
+                        break
+                    if stores_first is not None:
+                        dead = False
+                        break
+                if not dead:
+                    continue
+                # v is only used inside nxt, and nxt does not change what the attribute read depends on before using it
+                root = st.value
+                while isinstance(root, ast.Attribute):
+                    root = root.value
+                if any(isinstance(y, ast.Name) and y.id == v and isinstance(y.ctx, ast.Store) for y in ast.walk(nxt)):
+                    continue
+                if any(isinstance(y, ast.Call) and not (isinstance(y.func, ast.Name) and y.func.id in ('hasattr', 'isinstance', 'int', 'len'))
+                       for y in ast.walk(nxt)):
+                    continue
+                if isinstance(root, ast.Name) and any(isinstance(y, ast.Name) and y.id == root.id and isinstance(y.ctx, ast.Store)
+                                                      for y in ast.walk(nxt)):
+                    continue
+                # used elsewhere in the function outside this block (closures, loops around)? only handle straight-line sections
+                uses_in_nxt = sum(1 for y in ast.walk(nxt) if isinstance(y, ast.Name) and y.id == v and isinstance(y.ctx, ast.Load))
+                if uses_in_nxt == 0:
+                    continue
+
+                class S(ast.NodeTransformer):
+                    def visit_Name(self_, y):
+                        if y.id == v and isinstance(y.ctx, ast.Load):
+                            return copy.deepcopy(st.value)
+                        return y
+                blk[i] = S().visit(nxt)
+                del blk[i - 1]
+                i -= 1
+                self.stats['copy_once'] = self.stats.get('copy_once', 0) + 1
+        ast.fix_missing_locations(fnode)
+
+    # ------------------------------------------------------------------ 9d. copies guarded against None
+    def _dimse_properties(self) -> Set[str]:
+        """names bound to ``dimse_property(..)`` in a class body of the package: attributes backed by an element of the command
+        set, for which ``None`` and the blank placeholder of a fresh message are both transmitted as an empty element"""
+        got = getattr(self, '_dimse_props', None)
+        if got is None:
+            got = set()
+            for c in self.repo.all_classes():
+                for name, val in c.attrs.items():
+                    if isinstance(val, ast.Call) and ast.unparse(val.func).split('.')[-1] == 'dimse_property':
+                        got.add(name)
+            self._dimse_props = got
+        return got
+
+    def _none_guarded_copy(self, fnode, cls, local):
+        """``if v is not None [and C]: rsp.field = v`` on a message created in this function, ``field`` a command-set backed
+        property: when ``v`` is None the store would write None where the fresh message holds its blank placeholder -- the two are
+        the same empty element on the wire -- so the copy reads unconditional (``if C: rsp.field = v``)."""
+        props = self._dimse_properties()
+        if not props:
+            return
+        fresh = set()
+        for n in ast.walk(fnode):
+            if isinstance(n, ast.Assign) and len(n.targets) == 1 and isinstance(n.targets[0], ast.Name) and isinstance(n.value, ast.Call) \
+                    and not n.value.args and not n.value.keywords and (
+                        (isinstance(n.value.func, ast.Name) and n.value.func.id == 'cls') or ast.unparse(n.value.func).split('.')[-1].endswith('Message')):
+                if sum(1 for y in ast.walk(fnode) if isinstance(y, ast.Name) and y.id == n.targets[0].id and isinstance(y.ctx, ast.Store)) == 1:
+                    fresh.add(n.targets[0].id)
+        if not fresh:
+            return
+        for blk in _blocks(fnode):
+            for i, st in enumerate(blk):
+                if not (isinstance(st, ast.If) and not st.orelse and len(st.body) == 1 and isinstance(st.body[0], ast.Assign)
+                        and len(st.body[0].targets) == 1):
+                    continue
+                a = st.body[0]
+                t = a.targets[0]
+                if not (isinstance(t, ast.Attribute) and isinstance(t.value, ast.Name) and t.value.id in fresh and t.attr in props
+                        and _is_simple(a.value)):
+                    continue
+                v = ast.unparse(a.value)
+                parts = st.test.values if isinstance(st.test, ast.BoolOp) and isinstance(st.test.op, ast.And) else [st.test]
+                is_guard = lambda x: isinstance(x, ast.Compare) and len(x.ops) == 1 and isinstance(x.ops[0], ast.IsNot) \
+                    and ast.unparse(x.left) == v and isinstance(x.comparators[0], ast.Constant) and x.comparators[0].value is None
+                rest = [x for x in parts if not is_guard(x)]
+                if len(rest) == len(parts):
+                    continue
+                if any(isinstance(y, ast.Call) and not (isinstance(y.func, ast.Name) and y.func.id in ('hasattr', 'isinstance'))
+                       for x in rest for y in ast.walk(x)):
+                    continue
+                self.stats['none_guarded_copies'] = self.stats.get('none_guarded_copies', 0) + 1
+                if not rest:
+                    blk[i] = a
+                else:
+                    st.test = rest[0] if len(rest) == 1 else ast.BoolOp(op=ast.And(), values=rest)
+        ast.fix_missing_locations(fnode)
 
     # ------------------------------------------------------------------ 9c. look-ups in constant tables
     DISPATCH_REST_MAX = 8
@@ -746,6 +868,13 @@ class _Normalizer:
 
             def visit_Call(self_, n):
                 n = self_.generic_visit(n)
+                # getattr(o, 'name', None) -> o.name (the default only matters where the attribute is missing, where the plain
+                # read raises: the value on every path that goes on is the same)
+                if isinstance(n.func, ast.Name) and n.func.id == 'getattr' and len(n.args) == 3 and not n.keywords \
+                        and isinstance(n.args[1], ast.Constant) and isinstance(n.args[1].value, str) and n.args[1].value.isidentifier() \
+                        and isinstance(n.args[2], ast.Constant) and n.args[2].value is None and 'getattr' not in local \
+                        and n.args[1].value in me._dimse_properties():
+                    return ast.copy_location(ast.Attribute(value=n.args[0], attr=n.args[1].value, ctx=ast.Load()), n)
                 # getattr(o, 'name') -> o.name
                 if isinstance(n.func, ast.Name) and n.func.id == 'getattr' and len(n.args) == 2 and not n.keywords \
                         and isinstance(n.args[1], ast.Constant) and isinstance(n.args[1].value, str) and n.args[1].value.isidentifier() \
